@@ -74,6 +74,9 @@ pub enum Op {
     /// (dir, which): create (or edit) a file whose name begins or ends with a blank
     /// (`notes.txt `, ` draft.md`, `tab\tend\t`)
     BlankEdgeName(u16, u16),
+    /// create (or edit) a path whose name continues the name of a directory with a character that
+    /// sorts below the separator (`one.txt`, `one-old/b.txt`, `one extra/c.txt` next to `one/...`)
+    DirNameSibling(u16),
 }
 
 pub const BIG_SIZES: [usize; 9] = [
@@ -379,6 +382,14 @@ impl Hist {
                 self.env.write_file(&p, &c);
                 self.work.insert(p.clone(), c);
                 self.odd_name = true;
+                format!("edit {:?}", p)
+            }
+            Op::DirNameSibling(k) => {
+                let names = ["one.txt", "one-old/b.txt", "one extra/c.txt", "two+.md", "three/sub.txt", "three/sub-x/y.txt", "other dir.bak", "one/deep.er"];
+                let p = names[pick(*k, names.len())].to_string();
+                let c = self.fresh(&p);
+                self.env.write_file(&p, &c);
+                self.work.insert(p.clone(), c);
                 format!("edit {:?}", p)
             }
             Op::ResetSoft(k) => {
